@@ -178,7 +178,10 @@ fn resolve_once(
         let mut inner_ctx = ctx.clone();
         inner_ctx.bank_data = &new_bank_datum;
         inner_ctx.is_first_iteration = is_first_iteration;
-        inner_ctx.is_last_iteration = is_last_iteration;
+        // The block can only be as strict as the pass it is evaluated in:
+        // while the enclosing pass may still guess, so may the block
+        inner_ctx.is_last_iteration =
+            is_last_iteration && ctx.is_last_iteration;
 
 
         if let asm::AstAny::Symbol(ast_symbol) = node
